@@ -94,6 +94,10 @@ def percentage(total, completed):
 # ---------------------------------------------------------------------------
 
 
+class _LoopBodyError(Exception):
+    """Raised by the body of a `for ... in track(...)` loop."""
+
+
 class C12:
     prop = PROP
     level = "exploration"
@@ -158,6 +162,10 @@ class C12:
             "sleeps": [rng.choice([0, 0, 0.05, 0.2, 2.0]) for _ in range(n)],
             "total_given": rng.random() < 0.3,
         }
+        if n and rng.random() < 0.3:
+            # the loop is left early, by break or by an exception in its body, while element k is
+            # being processed
+            tr["leave"] = [rng.choice(["break", "raise"]), rng.randrange(n)]
         other = []
         if rng.random() < 0.5:
             other = [["sleep", rng.choice([0.01, 0.3])] if rng.random() < 0.5 else ["addx", 10] for _ in range(rng.randint(1, 3))]
@@ -433,17 +441,35 @@ class C12:
                 total = n if (tr["gen"] or tr["total_given"]) else None
                 it = progress.track(src, total=total, update_period=tr["update_period"], description=desc)
                 j = 0
-                for v in it:
-                    got.append(v)
-                    if tr["sleeps"][j]:
-                        sim.sleep(tr["sleeps"][j])
-                    j += 1
+                leave = tr.get("leave")
+                try:
+                    for v in it:
+                        got.append(v)
+                        if tr["sleeps"][j]:
+                            sim.sleep(tr["sleeps"][j])
+                        if leave and j == leave[1]:
+                            ctx["probes"]["track_left_early"] = ctx["probes"].get("track_left_early", 0) + 1
+                            if leave[0] == "break":
+                                break
+                            raise _LoopBodyError()
+                        j += 1
+                except _LoopBodyError:
+                    pass
+                if leave:
+                    it.close()  # what leaving the for statement does once the generator is dropped
+                    items = items[:leave[1] + 1]
                 tasks = progress.tasks
                 trk = [t for t in tasks if t.description == desc]
                 if got != items:
                     viol("track-yield", "track-yield", "track yielded %r for input %r" % (got, items))
                 if len(trk) != 1:
                     viol("track-task", "track-task", "expected one tracked task, found %d" % len(trk))
+                elif leave:
+                    # the element in flight when the loop was left is un-acknowledged: it may or
+                    # may not count; every element before it was yielded and finished
+                    if not (len(got) - 1 <= trk[0].completed <= len(got)):
+                        viol("track-count", "track-count", "tracked task completed %r after the loop was left (%s) while processing element %d of %d yielded" % (
+                            trk[0].completed, leave[0], len(got), len(got)))
                 elif trk[0].completed != len(got):
                     viol("track-count", "track-count", "tracked task completed %r after yielding %d elements" % (trk[0].completed, len(got)))
                 helpers = [t for t in sim.threads if t.name == "_TrackThread"]
